@@ -894,3 +894,251 @@ Theorem C06_extractedD_nonvacuous_limit :
              lib_live h' = ∅ /\ h_next h' = 20007%positive /\ Z.of_nat (h_req h') = 20006.
 Proof. exact (conj CoreOpsBridgeDupEx.exC_accepted CoreOpsBridgeDupEx.exC_history). Qed.
 Print Assumptions C06_extractedD_nonvacuous_limit.
+
+(** ------------------------------------------------------------------ 9. READ-ONLY QUERIES THROUGH REFERENCE NODES
+    under the history theorem of the EXTRACTED interpreter
+
+    The checker [pre_ok3b] of sections 1 – 8 rejects every query whose container argument is a
+    reference node (cJSON_CreateObjectReference / cJSON_CreateArrayReference / cJSON_AddItemReferenceTo…):
+    such a node has no children of its own; its [child] field is the BORROWED pointer [rd_ref], the
+    identity [c] of an element of ANOTHER tree, and cJSON_GetArraySize, cJSON_GetArrayItem,
+    cJSON_GetObjectItem[CaseSensitive], cJSON_HasObjectItem and the caller's loop cJSON_ArrayForEach read,
+    through it, [c] and its following siblings AS THEY ARE NOW.
+
+    THE LIST MODEL (CoreOpsBridgeRefDefs.v): [ref_chain F a] = what the reference node [a] denotes in
+    the forest [F] = [chain_from F c]: while [c] is the [j]-th child of a node of the forest, the
+    children of that node from position [j] on — for the first child: ALL the current children of
+    the referenced container, so items appended later are visible —; when [c] has been detached
+    (a root: no sibling links), [c] alone.  It is defined EXACTLY while [c] is a node of the model's
+    forest, i.e. while its block has not been released (block identities are never reused): the
+    referenced element outlives the use of the reference.  After cJSON_Delete of the referenced tree,
+    cJSON_DeleteItemFrom… or a replace of [c], the pointer dangles, [ref_chain] is undefined and the
+    checker REJECTS the query (the extracted interpreter, run there, ends in use-after-free).
+    [ref_answer S m]: size = length of the chain, index [k] = its [k]-th element, by key = first
+    match in the chain (both case modes); [stepRR] / [runRR] / [accepted_rulesR] extend [stepRD] / [runRD] /
+    [accepted_rulesD] by these steps (a step that [stepRD] accepts is decided by [stepRD]);
+    [accepted_rulesR] is what the extracted driver evaluates. *)
+From CJ Require Import CoreOpsBridgeRefDefs CoreOpsBridgeRefSim CoreOpsBridgeRefHist.
+From CJ Require CoreOpsBridgeRefEx.
+
+(** what a reference node denotes: defined iff the node the borrowed pointer designates is a node of
+    the forest; a reference without child pointer denotes the empty chain *)
+Theorem C06_reference_denotes : forall F a us,
+  ref_chain F a = Some us <->
+  exists p d, a = Some p /\ find_tree p F = Some (T p d []) /\ is_ref d = true /\
+    ((rd_ref d = None /\ us = []) \/ (exists c, rd_ref d = Some c /\ c ∈ ids F /\ us = chain_from F c)).
+Proof. exact ref_chain_spec. Qed.
+(** the borrowed pointer designates the FIRST child of a container [q] of the forest: the reference
+    denotes the CURRENT children list of [q] *)
+Theorem C06_reference_denotes_container : forall F p d c q dq csq,
+  NoDup (ids F) -> find_tree p F = Some (T p d []) -> is_ref d = true -> rd_ref d = Some c ->
+  find_tree q F = Some (T q dq csq) -> head (tid <$> csq) = Some c ->
+  ref_chain F (Some p) = Some csq.
+Proof. exact ref_chain_container. Qed.
+Print Assumptions C06_reference_denotes_container.
+(** the designated node has been released: undefined *)
+Theorem C06_reference_dangles : forall F p d c,
+  find_tree p F = Some (T p d []) -> rd_ref d = Some c -> c ∉ ids F -> ref_chain F (Some p) = None.
+Proof. exact ref_chain_released. Qed.
+(** the elements of the chain are nodes of the forest *)
+Theorem C06_reference_chain_in_forest : forall F a us x,
+  NoDup (ids F) -> ref_chain F a = Some us -> x ∈ us -> x ∈ nodes F.
+Proof. exact ref_chain_nodes. Qed.
+
+(** THE SIMULATION, heap level: on every well-formed heap the query through the reference node returns
+    the list model's answer on the chain, and the heap is unchanged *)
+Theorem C06_reference_queries_size : forall h F, WF h F -> forall a us,
+  ref_chain F a = Some us -> cJSON_GetArraySize a h = Ret (Z.of_nat (length us), h).
+Proof. exact ref_size_sim. Qed.
+Print Assumptions C06_reference_queries_size.
+Theorem C06_reference_queries_index : forall h F, WF h F -> forall a us index,
+  ref_chain F a = Some us ->
+  cJSON_GetArrayItem a index h = Ret (if index <? 0 then None else (tid <$> us) !! Z.to_nat index, h).
+Proof. exact ref_item_sim. Qed.
+Theorem C06_reference_queries_key : forall h F, WF h F -> forall a us nb (sn : bytes) (case_sensitive : bool),
+  KeysReadable h F -> ref_chain F a = Some us ->
+  nb ∈ h_live h -> h_str h !! nb = Some sn -> existsb (Z.eqb 0) sn = true ->
+  get_object_item a (Some nb) case_sensitive h = Ret (find_key case_sensitive (h_str h) (cstr sn) us, h).
+Proof. exact ref_key_sim. Qed.
+Print Assumptions C06_reference_queries_key.
+Theorem C06_reference_queries_has : forall h F, WF h F -> forall a us nb (sn : bytes),
+  KeysReadable h F -> ref_chain F a = Some us ->
+  nb ∈ h_live h -> h_str h !! nb = Some sn -> existsb (Z.eqb 0) sn = true ->
+  cJSON_HasObjectItem a (Some nb) h = Ret (negb (is_null (find_key false (h_str h) (cstr sn) us)), h).
+Proof. exact ref_has_sim. Qed.
+Theorem C06_reference_queries_iteration : forall h F, WF h F -> forall a us,
+  ref_chain F a = Some us -> CoreOps.array_for_each a h = Ret (chain_types us, h).
+Proof. exact ref_each_sim. Qed.
+Print Assumptions C06_reference_queries_iteration.
+(** [find_key] is the lookup of section 4 (first exact match / first folded match) on the chain *)
+Theorem C06_reference_queries_find_key : forall cs strs name us,
+  find_key cs strs name us = if cs then find_key_cs strs name us else find_key_ci strs name us.
+Proof. exact (fun cs strs name us => eq_refl). Qed.
+
+(** THE STEP OF THE LIST MODEL: from every heap that represents [S], a query the model answers returns
+    exactly that answer and leaves the heap (hence the represented state) unchanged *)
+Theorem C06_reference_query_step : forall h S m r,
+  Abs3 h S -> ref_answer S m = Some r -> run_op3 m h = Ret (r, h).
+Proof. exact ref_answer_sim. Qed.
+Print Assumptions C06_reference_query_step.
+(** a returned item is a node of the model's forest (the pushed handle denotes an owned block) *)
+Theorem C06_reference_query_result_in_forest : forall S m r x,
+  NoDup (ids (a_forest S)) -> ref_answer S m = Some r -> res_ptr3 r = Some x -> x ∈ ids (a_forest S).
+Proof. exact ref_answer_ids. Qed.
+
+(** ACCEPTANCE: what [stepRD] accepts is decided by [stepRD]; what it rejects may be a query through a
+    reference node … *)
+Theorem C06_extracted_acceptanceR : forall st S o y,
+  stepRR st S o = Some y <-> stepRD st S o = Some y \/ (stepRD st S o = None /\ stepQ st S o = Some y).
+Proof. exact stepRR_spec. Qed.
+(** … which is accepted exactly when the model defines its answer: the chain is defined (and, by key,
+    the name is a readable string).  The result is the model's answer, the model state changes only
+    by the caller strings the call declares ([declared]), the returned item is pushed, the pools
+    are swept against the blocks the model owns *)
+Theorem C06_extracted_acceptanceR_query : forall st S o x st1 S1,
+  stepQ st S o = Some (x, st1, S1) <->
+  exists t, tr (sview S) st o = Some t /\ S1 = declared S t /\
+    ((exists m r, t_main t = Some m /\ (t_kind t = KPush \/ t_kind t = KFlag \/ t_kind t = KInt) /\
+        ref_answer S1 m = Some r /\ x = enc (t_kind t) r /\ st1 = sweepS S1 (new_pools (t_kind t) (t_st t) r)) \/
+     (exists a us, t_main t = None /\ t_kind t = KEach a /\ ref_chain (a_forest S1) a = Some us /\
+        x = CoreOps.RInts (chain_types us) /\ st1 = sweepS S1 (t_st t))).
+Proof. exact stepQ_spec. Qed.
+(** the extension is conservative: what section 8 accepts is accepted, with the same results *)
+Theorem C06_extracted_acceptanceR_conservative : forall ops st S y, runRD st S ops = Some y -> runRR st S ops = Some y.
+Proof. exact runRD_runRR. Qed.
+Theorem C06_extracted_accepted_rules_R : forall ops, accepted_rulesD ops = true -> accepted_rulesR ops = true.
+Proof. exact accepted_rules_D_R. Qed.
+
+(** ONE STEP of the extracted interpreter, queries through reference nodes included *)
+Theorem C06_extracted_stepR : forall h st S o x st1 S1,
+  Abs3 h S -> PoolsOK h st S -> stepRR st S o = Some (x, st1, S1) ->
+  exists h', CoreOps.run_op nv st o h = Ret ((x, st1), h') /\ Abs3 h' S1 /\ PoolsOK h' st1 S1.
+Proof. exact stepRR_sim. Qed.
+Print Assumptions C06_extracted_stepR.
+
+(** C06_history FOR THE EXTRACTED INTERPRETER, DUPLICATE CALLS AND QUERIES THROUGH REFERENCE NODES INCLUDED.
+    Every history accepted by the boolean checker ([runRR]: [stepRR] at every step), run by
+    [CoreOps.run_ops] from the empty heap with empty pools: every call RETURNS (no memory-error
+    outcome — in particular no read of a released node through a borrowed pointer), the per-call
+    results [xs] and the final pools are those the list model computes, and the heap reached
+    represents the model's final state. *)
+Theorem C06_history_extractedR : forall ops xs st' S',
+  runRR CoreOps.empty_state S0 ops = Some (xs, st', S') ->
+  exists h', CoreOps.run_ops nv CoreOps.empty_state ops empty_heap = Ret ((xs, st'), h') /\ Abs3 h' S'.
+Proof. exact history_extractedR. Qed.
+Print Assumptions C06_history_extractedR.
+Theorem C06_history_extractedR_accepted : forall ops,
+  accepted_rulesR ops = true ->
+  exists xs st' S' h', runRR CoreOps.empty_state S0 ops = Some (xs, st', S') /\
+    CoreOps.run_ops nv CoreOps.empty_state ops empty_heap = Ret ((xs, st'), h') /\ Abs3 h' S'.
+Proof. exact history_extractedR_accepted. Qed.
+Theorem C06_history_extractedR_from_any_state : forall ops h st S xs st2 S2,
+  Abs3 h S -> PoolsOK h st S -> runRR st S ops = Some (xs, st2, S2) ->
+  exists h', CoreOps.run_ops nv st ops h = Ret ((xs, st2), h') /\ Abs3 h' S2 /\ PoolsOK h' st2 S2.
+Proof. exact runRR_sim. Qed.
+Theorem C06_history_extractedR_prefixes : forall ops1 st S ops2 xs st2 S2,
+  runRR st S (ops1 ++ ops2) = Some (xs, st2, S2) ->
+  exists xs1 st1 S1 xs2, runRR st S ops1 = Some (xs1, st1, S1) /\ runRR st1 S1 ops2 = Some (xs2, st2, S2) /\ xs = xs1 ++ xs2.
+Proof. exact runRR_app. Qed.
+
+(** the ledger of C07 under the larger acceptance *)
+Theorem C07_balanced_extractedR : forall ops xs st' S',
+  runRR CoreOps.empty_state S0 ops = Some (xs, st', S') ->
+  exists h1 h2,
+    CoreOps.run_ops nv CoreOps.empty_state ops empty_heap = Ret ((xs, st'), h1) /\ Abs3 h1 S' /\
+    (forall b, b ∈ lib_live h1 <-> b ∈ owned (a_forest S')) /\
+    CoreOps.live_count h1 = length (owned (a_forest S')) /\
+    delete_roots (roots (a_forest S')) h1 = Ret (tt, h2) /\ lib_live h2 = ∅ /\ CoreOps.live_count h2 = 0%nat /\
+    (forall b, h_own h1 !! b = Some Foreign -> b ∈ h_live h1 -> b ∈ h_live h2 /\ h_str h2 !! b = h_str h1 !! b).
+Proof. exact ledger_extractedR. Qed.
+Print Assumptions C07_balanced_extractedR.
+
+(** non-vacuity: a 46-call history — an array reference and an object reference queried with size / by
+    index / by key in both case modes / has-item / for-each, BEFORE and AFTER an item is appended to
+    each referenced container (the appended items are visible: sizes 2 then 3), a reference node
+    made by cJSON_AddItemReferenceToArray fetched out of its array and queried — is accepted (and was
+    not by section 8's checker: rejected at call 12, the first query through a reference) … *)
+Theorem C06_extractedR_nonvacuous_accepted :
+  accepted_rulesR CoreOpsBridgeRefEx.exR = true /\
+  (accepted_rulesD CoreOpsBridgeRefEx.exR = false /\ accepted_rulesD (take 12 CoreOpsBridgeRefEx.exR) = true /\
+   accepted_rulesD (take 13 CoreOpsBridgeRefEx.exR) = false).
+Proof. exact (conj CoreOpsBridgeRefEx.exR_accepted CoreOpsBridgeRefEx.exR_not_accepted_before). Qed.
+(** … the list model's results, final pools and (empty) forest are these … *)
+Theorem C06_extractedR_nonvacuous_model :
+  match runRR CoreOps.empty_state S0 CoreOpsBridgeRefEx.exR with
+  | Some (xs, st, S') => Some (xs, st, a_forest S') | None => None end =
+  Some (CoreOpsBridgeRefEx.exR_results, CoreOpsBridgeRefEx.exR_pools, []).
+Proof. exact CoreOpsBridgeRefEx.exR_model. Qed.
+(** … the extracted interpreter, RUN ([vm_compute]) from the empty heap, returns exactly these … *)
+Theorem C06_extractedR_nonvacuous_run :
+  match CoreOps.run_ops nv CoreOps.empty_state CoreOpsBridgeRefEx.exR empty_heap with
+  | Ret ((xs, st), h) => Some (xs, st, CoreOps.live_count h)
+  | Err _ => None
+  end = Some (CoreOpsBridgeRefEx.exR_results, CoreOpsBridgeRefEx.exR_pools, 0%nat).
+Proof. exact CoreOpsBridgeRefEx.exR_run. Qed.
+(** … before the deletions the heap reached IS the encoding of the model's state … *)
+Theorem C06_extractedR_nonvacuous_same_state :
+  match runRR CoreOps.empty_state S0 (take 41 CoreOpsBridgeRefEx.exR) with
+  | Some (_, _, S') => Some (CoreOpsBridgeDupEx.model_obs S') | None => None end =
+  match CoreOps.run_ops nv CoreOps.empty_state (take 41 CoreOpsBridgeRefEx.exR) empty_heap with
+  | Ret (_, h) => Some (CoreOpsBridgeDupEx.heap_obsD h) | Err _ => None end.
+Proof. exact CoreOpsBridgeRefEx.exR_same_state. Qed.
+(** … after the appends the two references denote the CURRENT children of the array (block 1) and of
+    the object (block 4) … *)
+Theorem C06_extractedR_nonvacuous_chains :
+  match runRR CoreOps.empty_state S0 (take 28 CoreOpsBridgeRefEx.exR) with
+  | Some (_, st, S') =>
+      Some (option_map (fmap tid) (ref_chain (a_forest S') (CoreOps.item_of st (CoreOps.IH 6))),
+            option_map (fmap tid) (ref_chain (a_forest S') (CoreOps.item_of st (CoreOps.IH 7))),
+            option_map (fmap tid) (children_of (a_forest S') 1), option_map (fmap tid) (children_of (a_forest S') 4))
+  | None => None
+  end = Some (Some [2; 3; 15], Some [5; 6; 17], Some [2; 3; 15], Some [5; 6; 17])%positive.
+Proof. exact CoreOpsBridgeRefEx.exR_chains. Qed.
+(** … and the theorem applies *)
+Theorem C06_extractedR_nonvacuous :
+  exists h', CoreOps.run_ops nv CoreOps.empty_state CoreOpsBridgeRefEx.exR empty_heap =
+               Ret ((CoreOpsBridgeRefEx.exR_results, CoreOpsBridgeRefEx.exR_pools), h') /\ lib_live h' = ∅.
+Proof. exact CoreOpsBridgeRefEx.exR_history. Qed.
+Print Assumptions C06_extractedR_nonvacuous.
+
+(** THE DANGLING REFERENCE.  [exX]: the first child of the referenced array is DETACHED — the reference
+    then denotes the detached item alone; accepted, model and interpreter agree (size 1) — and then
+    RELEASED … *)
+Theorem C06_extractedR_dangling_before :
+  accepted_rulesR CoreOpsBridgeRefEx.exX = true /\
+  match runRR CoreOps.empty_state S0 CoreOpsBridgeRefEx.exX with
+  | Some (xs, st, _) => Some (xs, CoreOps.st_items st) | None => None end =
+    Some (CoreOpsBridgeRefEx.exX_results, [CoreOpsBridgeEx.P 1; None; CoreOpsBridgeEx.P 3; CoreOpsBridgeEx.P 4; None]) /\
+  match CoreOps.run_ops nv CoreOps.empty_state CoreOpsBridgeRefEx.exX empty_heap with
+  | Ret ((xs, st), _) => Some (xs, CoreOps.st_items st) | Err _ => None end =
+    Some (CoreOpsBridgeRefEx.exX_results, [CoreOpsBridgeEx.P 1; None; CoreOpsBridgeEx.P 3; CoreOpsBridgeEx.P 4; None]).
+Proof. exact CoreOpsBridgeRefEx.exX_prefix_accepted. Qed.
+(** … from then on the model does not define what the reference denotes, and each of the seven
+    queries ([exX_queries]: size, index 0, index 1, by key folded, by key exact, has-item, for-each) is
+    REJECTED by the checker … *)
+Theorem C06_extractedR_dangling_rejected :
+  match runRR CoreOps.empty_state S0 CoreOpsBridgeRefEx.exX with
+  | Some (_, st, S') => Some (ref_chain (a_forest S') (CoreOps.item_of st (CoreOps.IH 3))) | None => None end = Some None /\
+  (fun q => accepted_rulesR (CoreOpsBridgeRefEx.exX ++ [q])) <$> CoreOpsBridgeRefEx.exX_queries =
+  [false; false; false; false; false; false; false].
+Proof. exact (conj CoreOpsBridgeRefEx.exX_no_chain CoreOpsBridgeRefEx.exX_rejected). Qed.
+(** … and the extracted interpreter, RUN there, reads the released node: use-after-free (index 0
+    returns the dangling pointer, block 2, without reading it) *)
+Theorem C06_extractedR_dangling_interpreter :
+  (fun q => CoreOpsBridgeRefEx.outcome (CoreOpsBridgeRefEx.exX ++ [q])) <$> CoreOpsBridgeRefEx.exX_queries =
+  [inr UAF; inl (Some (CoreOps.RPtr (CoreOpsBridgeEx.P 2))); inr UAF; inr UAF; inr UAF; inr UAF; inr UAF].
+Proof. exact CoreOpsBridgeRefEx.exX_interpreter. Qed.
+(** the same when the first child is detached and released by ONE call (cJSON_DeleteItemFromArray(a, 0)) or
+    replaced (cJSON_ReplaceItemInArray(a, 0, x)); deleting the SECOND child leaves the reference
+    intact (it then denotes the first child alone): (accepted up to the call, the following query
+    accepted?, what the interpreter returns) *)
+Theorem C06_extractedR_dangling_one_call :
+  (fun k => (accepted_rulesR (take 8 (CoreOpsBridgeRefEx.exX2 k)), accepted_rulesR (CoreOpsBridgeRefEx.exX2 k),
+             CoreOpsBridgeRefEx.outcome (CoreOpsBridgeRefEx.exX2 k))) <$> CoreOpsBridgeRefEx.exX_kills =
+  [(true, false, inr UAF); (true, false, inr UAF); (true, true, inl (Some (CoreOps.RInt 1)))].
+Proof. exact CoreOpsBridgeRefEx.exX2_rejected. Qed.
+(** a 90-call history with 66 queries through reference nodes is accepted (cost of the checker on it:
+    0.65 s by [vm_compute], 9 ms extracted to OCaml) *)
+Theorem C06_extractedR_ninety_calls :
+  accepted_rulesR CoreOpsBridgeRefEx.exR90 = true /\ length CoreOpsBridgeRefEx.exR90 = 90%nat.
+Proof. exact CoreOpsBridgeRefEx.exR90_accepted. Qed.
